@@ -152,15 +152,26 @@ def producer(mod: Module, fn: T.Any, e: ast.AST, depth: int = 0) -> T.Tuple[T.Li
     raise Undecided(f'Version tokens: cannot read the producer {short(e)}')
 
 
+GROUPS: T.Dict[str, int] = {}        # names of the groups of the token regex at hand (B3: positional <-> named groups)
+
+
+def _gid(c: ast.AST) -> T.Optional[int]:
+    if isinstance(c, ast.Constant) and isinstance(c.value, int) and not isinstance(c.value, bool):
+        return c.value
+    if isinstance(c, ast.Constant) and isinstance(c.value, str):
+        return GROUPS.get(c.value)
+    return None
+
+
 def _group(e: ast.AST, m: str) -> T.Optional[int]:
-    """`m.group(k)` / `m[k]` / `m.group()` -> k."""
+    """`m.group(k)` / `m[k]` / `m.group()` / `m.group('name')` -> k."""
     if isinstance(e, ast.Call) and isinstance(e.func, ast.Attribute) and e.func.attr == 'group' and norm(e.func.value) == m and not e.keywords:
         if not e.args:
             return 0
-        if len(e.args) == 1 and isinstance(e.args[0], ast.Constant) and isinstance(e.args[0].value, int):
-            return e.args[0].value
-    if isinstance(e, ast.Subscript) and norm(e.value) == m and isinstance(e.slice, ast.Constant) and isinstance(e.slice.value, int):
-        return e.slice.value
+        if len(e.args) == 1:
+            return _gid(e.args[0])
+    if isinstance(e, ast.Subscript) and norm(e.value) == m:
+        return _gid(e.slice)
     return None
 
 
@@ -176,8 +187,16 @@ def check_tokens(ctx: RuleCtx, mod: Module, field: str) -> None:
     r = fold_expr(ctx.repo, mod, rx)
     if not isinstance(r, Regex):
         raise Undecided(f'Version tokens: {short(rx)} does not fold to a regular expression')
-    ctx.require(r.pattern == PATTERN, 'Version token regex is digits | letters', mod, '<module>', rx, f'token regex changed: {r!r}')
-    if r.pattern != PATTERN:
+    import re
+    try:
+        compiled = re.compile(r.pattern, r.flags)          # the constant pattern of the source is parsed, nothing of the repository runs
+    except re.error as ex:
+        raise Undecided(f'Version tokens: the token regex does not compile: {ex}')
+    plain = re.sub(r'\(\?P<[A-Za-z_][A-Za-z_0-9]*>', '(', r.pattern)      # group names do not change the language or the numbering
+    GROUPS.clear()
+    GROUPS.update(compiled.groupindex)
+    ctx.require(plain == PATTERN and not (r.flags & ~32), 'Version token regex is digits | letters', mod, '<module>', rx, f'token regex changed: {r!r}')
+    if plain != PATTERN:
         return
     n = 0
     for conds, comp, node in rows:
@@ -192,6 +211,9 @@ def check_tokens(ctx: RuleCtx, mod: Module, field: str) -> None:
                 facts.append(v if g == 1 else (not v))
             elif a.kind == 'truth' and isinstance(e, ast.Call) and isinstance(e.func, ast.Attribute) and e.func.attr == 'isdigit' and _group(e.func.value, m) == 0:
                 facts.append(v)
+            elif a.kind == 'cmp' and a.args[0] == 'eq' and a.args[1] in (f'{m}.lastindex', f'{m}.lastgroup') \
+                    and _gid(ast.parse(a.args[2], mode='eval').body) in (1, 2):
+                facts.append(v if _gid(ast.parse(a.args[2], mode='eval').body) == 1 else not v)      # which alternative matched
             else:
                 raise Undecided(f'Version tokens ({where}): unknown condition {a!r}')
         if facts and any(f != facts[0] for f in facts):
